@@ -57,6 +57,25 @@ add('C14', 'exploration', 'runtime monitoring: observation-vector invariance und
     'The treespec observation vector is re-read after every step of permuted hostile actions; every API call is bracketed by deep snapshots of all its inputs; weakrefs decide retention and cycle collection.',
     '__getstate__ not gated; snapshots record identities, key order and metadata', 'DESIGN.md#c14')
 
+add('C15', 'fault_enumeration', 'runtime monitoring: tick()-based fault injector enumerating every k-th callback invocation of ~45 operations x scenario trees in journaled worker processes; exception-identity, refcount-ledger and re-run oracles',
+    'Every callback invocation index of every (operation, scenario) pair is injected once on the real engine; crash attribution by journal; exhaustive for the listed operations x scenarios only.',
+    'single fault per run; GC disabled during an injection, collectable cycles are not counted as leaks', 'DESIGN.md#c15')
+add('C16', 'fault_enumeration', 'sanitizers: ASan+UBSan build of the engine as oracle (report blocks, worker exit status) over depth probes, a complete traversal x container x callback position x mutation matrix and seeded type-confusion calls',
+    'The instrumented engine is driven through the enumerated matrix and hostile calls in journaled workers; any sanitizer report or signal death is a violation; clean run = no report on these executions, not memory safety.',
+    'clang-14 ASan/UBSan, CPython objects malloc-backed; red zones miss intra-object overflows; only code reached is judged', 'DESIGN.md#c16')
+add('C17', 'exploration', 'runtime monitoring: cooperative scheduler parking threads inside engine-invoked callbacks, DFS-by-replay + random schedule enumeration, solo-result oracle, journal stall watchdog with gdb lock signature, preemptive stress (thorough: also ASan/TSan builds)',
+    'Interleavings at callback granularity are enumerated and executed on the real engine; each result is compared with the solo result / registry model; deadlock is restated as bounded progress and judged by a stack signature.',
+    'GIL build only; TSan on a GIL build is weak evidence; dict_insertion_ordered excluded as documented', 'DESIGN.md#c17')
+add('C18', 'exploration', 'runtime monitoring: differential oracle between bound C++ implementations and __python_implementation__ twins over a generated class universe, cache-history phases with measured address reuse, sort twin and one-level twin',
+    'Both implementations are executed on every generated class / key list / node and must agree; cache history phases (fresh interpreter, shuffled, > 4096 live classes, churn with address reuse) must not change answers.',
+    'classes are not mutated after classification; address reuse is measured, not assumed', 'DESIGN.md#c18')
+add('C19', 'exploration', 'runtime monitoring: generated dataclass layouts / flags / inheritance / routes checked against a documentation-derived partition and a dataclasses.dataclass twin; recording function for partial calls after tree_map',
+    'Each generated layout is really decorated, instantiated, flattened in several namespaces, rebuilt and compared with its plain-dataclass twin; partial chains are called after mapping and the recorded call is compared.',
+    'when eq=False instances are compared field by field', 'DESIGN.md#c19')
+add('C20', 'exploration', 'runtime monitoring: post-condition contract on the real tree_ravel (icontract.ensure) and on every unravel call, per backend subprocess (numpy, jax, torch), reference promotion through the backend API',
+    'The real tree_ravel of each backend is wrapped by a contract and driven with generated array pytrees; inverse laws and rejections are checked bit-exactly per leaf.',
+    'promotion reference = backend API; value round trip only for representable vectors', 'DESIGN.md#c20')
+
 ALL = [f'C{i:02d}' for i in range(1, 21)]
 
 
